@@ -573,6 +573,26 @@ func buildFaultCases(r *core.Run, rng *rand.Rand, onlyBig bool) (cases []faultCa
 			addCase(fileInput{Name: fmt.Sprintf("xmp-long-token#%d/%d", n, k), Kind: "xmp", Data: d}, -1, "EOF", fmt.Sprintf("XMP packet with a %d-byte token (form %d)", n, k), uint32(k))
 		}
 	}
+	// (e') XMP numeric and rational properties with values on the boundaries of the integer widths a parser may narrow to
+	if !onlyBig {
+		vals := []string{"0/0", "1/0", "0/65536", "400/65536", "1/131072", "4294967296/1", "1/4294967296", "65535/65535", "65536", "256", "-1", "-32769", "+70000",
+			"18446744073709551616", "9223372036854775808/3", "1e309", "0x10", "", " ", "/", "1/", "/1", "1//2", "1.5/2", "١٢"}
+		props := []string{"exif:ExposureTime", "exif:FNumber", "exif:FocalLength", "exif:SubjectDistance", "exif:ExposureBiasValue", "aux:FlashCompensation", "exif:ISOSpeedRatings",
+			"tiff:Orientation", "tiff:ImageWidth", "exif:MeteringMode", "exif:ExposureProgram", "xmp:Rating", "aux:LensID", "aux:ImageNumber", "exif:GPSLatitude", "exif:GPSAltitude",
+			"exif:PixelXDimension", "xmp:CreateDate", "exif:DateTimeOriginal", "xmpMM:DocumentID"}
+		for vi, v := range vals {
+			var attrs, elems strings.Builder
+			for pi, p := range props {
+				if (pi+vi)%2 == 0 {
+					attrs.WriteString(" " + p + `="` + v + `"`)
+				} else {
+					elems.WriteString("<" + p + ">" + v + "</" + p + ">")
+				}
+			}
+			d := []byte(`<x:xmpmeta xmlns:x="adobe:ns:meta/"><rdf:RDF xmlns:rdf="http://www.w3.org/1999/02/22-rdf-syntax-ns#"><rdf:Description rdf:about="" xmlns:tiff="http://ns.adobe.com/tiff/1.0/" xmlns:exif="http://ns.adobe.com/exif/1.0/" xmlns:aux="http://ns.adobe.com/exif/1.0/aux/" xmlns:xmp="http://ns.adobe.com/xap/1.0/" xmlns:xmpMM="http://ns.adobe.com/xap/1.0/mm/"` + attrs.String() + `>` + elems.String() + `</rdf:Description></rdf:RDF></x:xmpmeta>`)
+			addCase(fileInput{Name: fmt.Sprintf("xmp-numeric#%d", vi), Kind: "xmp", Data: d}, -1, "EOF", fmt.Sprintf("XMP packet whose numeric properties all read %q", v), uint32(vi))
+		}
+	}
 	// (f) honest but large / repetitive files: the cases of the cost model Scale
 	nscale, ok := addScaleCases(r, rng, onlyBig, addCase)
 	if !ok {
